@@ -52,7 +52,9 @@ def nid(node) -> int:
 
 
 def coq_rt(node, U) -> str:
-    return f"(Tz {nid(node)} {H.coq_info(node, U)} {H.coq_list(coq_rt(c, U) for c in (node._children or []))})"
+    # compact node term: the filter model reads only the data object's identity and the data_id
+    return (f"(Nd {nid(node)} {H.z(U.info(node._data)['obj'])} {H.coq_did(node._data_id)} "
+            f"{H.coq_list(coq_rt(c, U) for c in (node._children or []))})")
 
 
 def coq_forest(root, U) -> str:
@@ -86,7 +88,7 @@ class Prop:
             "StopTraversal/StopIteration} x per-node flavour (returned or raised, class or instance) x start (whole tree or one node); "
             "every case runs Tree.filtered, Tree.copy(predicate=), Tree.filter or Node.filtered, Node.copy(predicate=), "
             "Node.copy(add_self=False, predicate=), Node.filter and logs every predicate call.  quick: every ordered forest <= 3 nodes x all "
-            "6^n verdict assignments x all starts, 4-5 nodes sampled, random 6-14 nodes (clones at non-adjacent positions); thorough: <= 4 "
+            "6^n verdict assignments x all starts, 4-5 nodes sampled per (shape, start), random 6-14 nodes (clones at non-adjacent positions); thorough: <= 4 "
             "nodes exhaustive, 5 sampled, more random.  distinct = distinct (shape, labels, verdicts, start); non-trivial = a non-empty "
             "proper subset of the scanned nodes is kept")
     exhaustive_note = "all forest shapes <= N nodes x all 6^n verdict assignments x all starts (N=3 quick, 4 thorough)"
@@ -141,8 +143,8 @@ class Prop:
         for n in range(1, nex + 1):
             yield from self._exhaustive(n, rng)
         if tier == "quick":
-            yield from self._exhaustive(4, rng, sample=40)
-            yield from self._exhaustive(5, rng, sample=12)
+            yield from self._exhaustive(4, rng, sample=30)
+            yield from self._exhaustive(5, rng, sample=6)
         else:
             yield from self._exhaustive(5, rng, sample=150)
         nrand = 300 if tier == "quick" else 3000
@@ -154,8 +156,8 @@ class Prop:
             add_clones(nodes, rng)
             vs = rng.choices(range(6), weights=weights, k=n)
             flat = flatten(nodes)
-            cands = [None, None] + [i for i in range(n) if flat[i][1]]
-            yield self._desc(nodes, n, vs, rng.choice(cands), rng)
+            cands = [i for i in range(n) if flat[i][1]]
+            yield self._desc(nodes, n, vs, rng.choice(cands) if cands and rng.random() < 0.5 else None, rng)
 
     def shrink_candidates(self, desc):
         # drop a leaf / lift children (verdicts follow their nodes); then weaken verdicts to False
